@@ -86,7 +86,7 @@ def check(repo, rep, tier):
         # consumed per sentence)
         rp.r_sentence_loop(repo, rep, 'R1.3', ti)
         rp.r_root_ids(repo, rep, 'R1.3', ti)            # every allowed root category gets an id, whether the tagger knows it or not
-    rp.r_config_once(repo, rep, 'R1.3')
+    rp.r_config_plumbing(repo, rep, 'R1.3')     # (includes config-once) the derivations searched are those over the supertags the caller's beam admits, scored with the caller's penalty
     from .c11 import r_state, r_chunks, r_gather
     r_state(repo, rep, 'R1.3')
     # "the first parse returned for a sentence": a large batch is cut into chunks for a pool of workers; the list that
